@@ -400,3 +400,96 @@ Proof.
     destruct (C1 x1 Hx1) as [x0 [Hx0 [A0 _]]].
     unfold known. cbn [contracts]. fold (known s1 (ce_cid x)). rewrite K1, A, A0. apply EK. exact Hx0.
 Qed.
+
+(** * Batches *)
+Definition tinv (s : state) (C : list block) : Prop :=
+  linked C /\ lifecycle_ok C /\ el_inv s C /\ stat_inv s C /\ elems_known s.
+
+Lemma applies_total : forall bs s C, tinv s C -> linked (rev bs ++ C) -> lifecycle_ok (rev bs ++ C) ->
+  exists s', fold_res apply_block bs s = Ok s' /\ tinv s' (rev bs ++ C).
+Proof.
+  induction bs as [|b t IH]; intros s C T L LC; cbn [fold_res rev app].
+  - exists s. split; [reflexivity|exact T].
+  - cbn [rev] in L, LC. rewrite <- app_assoc in L, LC. cbn [app] in L, LC.
+    destruct T as [L0 [LC0 [EI [SI EK]]]].
+    pose proof (linked_app (rev t) (b :: C) L) as Lb.
+    pose proof (lifecycle_app (rev t) (b :: C) LC) as LCb.
+    destruct (apply_block_total s C b Lb LCb SI EK) as [s1 [E1 [SI1 EK1]]].
+    rewrite E1. cbn [bind].
+    assert (tinv s1 (b :: C)) as T1.
+    { split; [exact Lb|]. split; [exact LCb|]. split; [exact (el_inv_apply s C b s1 EI Lb E1)|]. split; assumption. }
+    destruct (IH s1 (b :: C) T1 L LC) as [s' [E' T']]. exists s'. rewrite <- app_assoc. cbn [app]. split; assumption.
+Qed.
+
+Lemma reverts_total : forall rs s C, tinv s C -> firstn (length rs) C = rs ->
+  exists s', fold_res revert_block rs s = Ok s' /\ tinv s' (skipn (length rs) C).
+Proof.
+  induction rs as [|r t IH]; intros s C T F; cbn [fold_res length skipn].
+  - exists s. split; [reflexivity|exact T].
+  - destruct C as [|b C]; [discriminate|]. cbn [length firstn] in F. injection F as Eb F. subst r.
+    destruct T as [L [LC [EI [SI EK]]]].
+    destruct (revert_block_total s C b L LC EI SI EK) as [s1 [E1 [SI1 EK1]]].
+    rewrite E1. cbn [bind].
+    assert (tinv s1 C) as T1.
+    { split; [cbn [linked] in L; tauto|]. split; [cbn [lifecycle_ok] in LC; tauto|].
+      split; [exact (el_inv_revert s C b s1 EI L E1)|]. split; assumption. }
+    exact (IH s1 C T1 F).
+Qed.
+
+Lemma tinv_ext s s' C : tinv s C -> contracts s' = contracts s -> celems s' = celems s -> ielems s' = ielems s ->
+  tinv s' C.
+Proof.
+  unfold tinv, stat_inv, elems_known, known, el_inv. intros [A [B [D [E F]]]] -> -> ->. tauto.
+Qed.
+
+Lemma batch_total s C rs bs : tinv s C -> wf_batch C rs bs -> lifecycle_ok (chain_after C rs bs) ->
+  exists s', batch s rs bs = Ok s' /\ tinv s' (chain_after C rs bs).
+Proof.
+  intros T [F V] LC. unfold chain_after in *.
+  destruct (reverts_total rs s C T F) as [s1 [E1 T1]].
+  destruct (applies_total bs s1 _ T1 V LC) as [s2 [E2 T2]].
+  unfold batch. destruct rs as [|r rs'] eqn:Ers; [destruct bs as [|b bs'] eqn:Ebs|].
+  - cbn in E1, E2. injection E1 as <-. injection E2 as <-. exists s. split; [reflexivity|exact T2].
+  - rewrite E1. cbn [bind]. rewrite E2. cbn [bind]. eexists. split; [reflexivity|].
+    apply (tinv_ext s2); auto.
+  - rewrite E1. cbn [bind]. rewrite E2. cbn [bind]. eexists. split; [reflexivity|].
+    apply (tinv_ext s2); auto.
+Qed.
+
+(* histories that obey the contract lifecycle (no reset: the contract statuses deliberately
+   survive ResetChainState and are re-synchronised by the rescan's skip branches) *)
+Inductive lreach : state -> list block -> Prop :=
+| lreach_init : lreach init []
+| lreach_add s C c : lreach s C -> ~ mentioned c C -> lreach (fst (step s (AddContract c))) C
+| lreach_batch s C rs bs s' :
+    lreach s C -> wf_batch C rs bs -> lifecycle_ok (chain_after C rs bs) -> batch s rs bs = Ok s' ->
+    lreach s' (chain_after C rs bs).
+
+Lemma lreach_tinv s C : lreach s C -> tinv s C.
+Proof.
+  induction 1 as [|s C c R IH Hm|s C rs bs s' R IH F LC H].
+  - repeat split; cbn; auto; intros; try discriminate; try contradiction. intros x [].
+  - cbn [step]. destruct (known s c) eqn:K; cbn [fst]; [exact IH|].
+    destruct IH as [L [LCy [EI [SI EK]]]]. repeat split; auto.
+    + intros c' st. cbn [contracts]. destruct (N.eq_dec c' c) as [->|Hne].
+      * rewrite alookup_aset_same. intros [= <-]. symmetry. apply cstat_unmentioned. exact Hm.
+      * rewrite alookup_aset_other by exact Hne. apply SI.
+    + intros x Hx. cbn [celems] in Hx. unfold known. cbn [contracts]. apply known_aset. apply EK. exact Hx.
+  - destruct (batch_total s C rs bs IH F LC) as [s2 [E2 T2]]. rewrite H in E2. injection E2 as ->. exact T2.
+Qed.
+
+(* every well-formed, lifecycle-conforming batch succeeds: no error, no panic *)
+Theorem batch_never_fails s C rs bs : lreach s C -> wf_batch C rs bs -> lifecycle_ok (chain_after C rs bs) ->
+  exists s', batch s rs bs = Ok s'.
+Proof.
+  intros R F LC. destruct (batch_total s C rs bs (lreach_tinv s C R) F LC) as [s' [E _]]. exists s'. exact E.
+Qed.
+
+(* lifecycle histories are histories: everything proved for [reach] applies *)
+Lemma lreach_reach s C : lreach s C -> exists hm, reach s C hm.
+Proof.
+  induction 1 as [|s C c R [hm IH] Hm|s C rs bs s' R [hm IH] F LC H].
+  - exists 0%N. constructor.
+  - exists hm. apply reach_add. exact IH.
+  - exists (hmax_after hm bs). exact (reach_batch s C hm rs bs s' IH F H).
+Qed.
